@@ -459,6 +459,64 @@ Proof.
       split; [intros He; discriminate|]. intros _; discriminate.
 Qed.
 
+Lemma submit_loop_fixed_props : forall q bn roots c bad c' subs e,
+  submit_loop_fixed q bn c roots bad = (c', subs, e) -> wf c ->
+  wf c' /\
+  (forall r, ngood c' r = ngood c r) /\
+  (forall s, In s subs -> verify_reconstructed (sub_sig s) = true /\ In (sub_root s) roots /\
+                          q <= ngood c (sub_root s)) /\
+  (NoDup roots -> NoDup (map sub_root subs)) /\
+  (bn = true -> e <> LBN).
+Proof.
+  induction roots as [|r tl IH]; intros c bad c' subs e H Hwf; simpl in H.
+  - inv H. split; [auto|]. split; [auto|]. split; [intros s []|]. split; [intros; constructor|].
+    intros _. destruct bad; discriminate.
+  - destruct (verify_reconstructed (reconstruct q (get_sigs c r))) eqn:Ev.
+    + apply reconstruct_valid in Ev as Hv. destruct Hv as [Hq _].
+      change (q <= ngood c r) in Hq.
+      destruct bn.
+      * destruct (submit_loop_fixed q true c tl bad) as [[c1 subs1] e1] eqn:E. inv H.
+        destruct (IH _ _ _ _ _ E Hwf) as (W & G & S & D & B).
+        split; [exact W|]. split; [exact G|]. split.
+        { intros s [<-|Hin]; simpl.
+          - repeat split; auto.
+          - destruct (S s Hin) as (a & b & c0). repeat split; auto. }
+        split.
+        { intros Hnd. inv Hnd. simpl. constructor; auto.
+          intros Hin. apply in_map_iff in Hin. destruct Hin as (s & Hs & Hin).
+          apply S in Hin. destruct Hin as (_ & Hin & _). rewrite Hs in Hin. contradiction. }
+        intros _. apply B; auto.
+      * inv H. split; [auto|]. split; [auto|]. split.
+        { intros s [<-|[]]; simpl. repeat split; auto. }
+        split.
+        { intros _. simpl. constructor; [intros []|constructor]. }
+        intros Hb; discriminate.
+    + destruct (IH _ _ _ _ _ H (fallback_wf c r Hwf)) as (W & G & S & D & B).
+      split; [exact W|]. split.
+      { intros r'. rewrite G. apply fallback_ngood. }
+      split.
+      { intros s Hin. destruct (S s Hin) as (a & b & c0). repeat split; auto.
+        - simpl. auto.
+        - rewrite fallback_ngood in c0. auto. }
+      split.
+      { intros Hnd. inv Hnd. auto. }
+      exact B.
+Qed.
+
+Lemma run_loop_props : forall g bn roots c c' subs e,
+  run_loop g bn c roots = (c', subs, e) -> wf c ->
+  wf c' /\
+  (forall r, ngood c' r = ngood c r) /\
+  (forall s, In s subs -> verify_reconstructed (sub_sig s) = true /\ In (sub_root s) roots /\
+                          quorum g <= ngood c (sub_root s)) /\
+  (NoDup roots -> NoDup (map sub_root subs)) /\
+  (bn = true -> e <> LBN).
+Proof.
+  intros g bn roots c c' subs e H Hwf. unfold run_loop in H. destruct (fix_multi g).
+  - eapply submit_loop_fixed_props; eauto.
+  - destruct (submit_loop_props _ _ _ _ _ _ _ _ H Hwf) as (W & G & S & D & _ & B). auto.
+Qed.
+
 (* ---- validation ------------------------------------------------------------------------------ *)
 
 Lemma list_eqb_eq : forall a b, list_eqb a b = true -> a = b.
@@ -510,6 +568,49 @@ Qed.
 
 (* ---- T1: every submission is valid and is a decided object ----------------------------------- *)
 
+Lemma base_processing_roots_incl : forall q ps c c' roots r,
+  base_processing q c ps = (c', roots) -> In r roots -> In r (map p_root ps).
+Proof.
+  induction ps as [|p tl IH]; intros c c' roots r Eb Hin.
+  - simpl in Eb. inv Eb. contradiction.
+  - rewrite base_processing_unfold in Eb. cbv zeta in Eb.
+    destruct (base_processing q (inner_step c p) tl) as [c2 roots2] eqn:E.
+    destruct (has_quorum q (inner_step c p) (p_root p) && negb (has_quorum q c (p_root p))); inv Eb.
+    + destruct Hin as [<-|Hin]; simpl; auto. right. eapply IH; eauto.
+    + simpl. right. eapply IH; eauto.
+Qed.
+
+(* validity needs no invariant: the loops only emit what passed verify_reconstructed *)
+Lemma submit_loop_valid : forall q bn roots all c c' subs e s,
+  submit_loop q bn c all roots = (c', subs, e) -> In s subs ->
+  verify_reconstructed (sub_sig s) = true /\ In (sub_root s) roots.
+Proof.
+  induction roots as [|r tl IH]; intros all c c' subs e s El Hin; simpl in El.
+  - inv El. contradiction.
+  - destruct (verify_reconstructed (reconstruct q (get_sigs c r))) eqn:Evr.
+    + destruct bn.
+      * destruct (submit_loop q true c all tl) as [[c3 subs3] e3] eqn:E3. inv El.
+        destruct Hin as [<-|Hin]; simpl; auto.
+        destruct (IH _ _ _ _ _ _ E3 Hin). auto.
+      * inv El. destruct Hin as [<-|[]]; simpl; auto.
+    + inv El. contradiction.
+Qed.
+
+Lemma submit_loop_fixed_valid : forall q bn roots c bad c' subs e s,
+  submit_loop_fixed q bn c roots bad = (c', subs, e) -> In s subs ->
+  verify_reconstructed (sub_sig s) = true /\ In (sub_root s) roots.
+Proof.
+  induction roots as [|r tl IH]; intros c bad c' subs e s El Hin; simpl in El.
+  - inv El. contradiction.
+  - destruct (verify_reconstructed (reconstruct q (get_sigs c r))) eqn:Evr.
+    + destruct bn.
+      * destruct (submit_loop_fixed q true c tl bad) as [[c3 subs3] e3] eqn:E3. inv El.
+        destruct Hin as [<-|Hin]; simpl; auto.
+        destruct (IH _ _ _ _ _ _ E3 Hin). auto.
+      * inv El. destruct Hin as [<-|[]]; simpl; auto.
+    + destruct (IH _ _ _ _ _ _ El Hin). simpl. auto.
+Qed.
+
 Lemma step_submits_valid : forall g st i st' o,
   step g st i = (st', o) ->
   forall s, In s (o_subs o) ->
@@ -520,35 +621,17 @@ Proof.
   destruct (validate g m) eqn:Ev; try (inv H; contradiction).
   destruct (base_processing (quorum g) (cont st) (s_msgs m)) as [c1 roots] eqn:Eb.
   destruct roots as [|r0 rtl]; [inv H; contradiction|].
-  destruct (submit_loop (quorum g) bn c1 (r0 :: rtl) (r0 :: rtl)) as [[c2 subs] e] eqn:El.
+  destruct (run_loop g bn c1 (r0 :: rtl)) as [[c2 subs] e] eqn:El.
   assert (Hsub : o_subs o = subs) by (destruct e; inv H; reflexivity).
   rewrite Hsub in Hin. clear H Hsub.
-  (* validity comes from the loop alone; membership from validation *)
   assert (Hv : verify_reconstructed (sub_sig s) = true /\ In (sub_root s) (r0 :: rtl)).
-  { clear Eb Ev. revert c1 c2 subs e El Hin. generalize (r0 :: rtl) at 1 as all.
-    generalize (r0 :: rtl) as roots.
-    induction roots as [|r tl IH]; intros all c1 c2 subs e El Hin; simpl in El.
-    - inv El. contradiction.
-    - destruct (verify_reconstructed (reconstruct (quorum g) (get_sigs c1 r))) eqn:Evr.
-      + destruct bn.
-        * destruct (submit_loop (quorum g) true c1 all tl) as [[c3 subs3] e3] eqn:E3. inv El.
-          destruct Hin as [<-|Hin]; simpl; auto.
-          destruct (IH _ _ _ _ _ E3 Hin). auto.
-        * inv El. destruct Hin as [<-|[]]; simpl; auto.
-      + inv El. contradiction. }
+  { unfold run_loop in El. destruct (fix_multi g).
+    - eapply submit_loop_fixed_valid; eauto.
+    - eapply submit_loop_valid; eauto. }
   destruct Hv as [Hv1 Hv2]. split; auto.
   apply validate_ok in Ev. destruct Ev as (_ & _ & _ & Hp).
-  (* roots reported by base_processing occur in the message *)
-  assert (Hin2 : In (sub_root s) (map p_root (s_msgs m))).
-  { clear - Eb Hv2. revert Eb Hv2. generalize (r0 :: rtl) as roots. generalize (cont st) as c.
-    revert c1. induction (s_msgs m) as [|p tl IH]; intros c1 c roots Eb Hin.
-    - simpl in Eb. inv Eb. contradiction.
-    - rewrite base_processing_unfold in Eb. cbv zeta in Eb.
-      destruct (base_processing (quorum g) (inner_step c p) tl) as [c2 roots2] eqn:E.
-      destruct (has_quorum (quorum g) (inner_step c p) (p_root p) && negb (has_quorum (quorum g) c (p_root p))); inv Eb.
-      + destruct Hin as [<-|Hin]; simpl; auto. right. eapply IH; eauto.
-      + simpl. right. eapply IH; eauto. }
-  eapply Permutation_in; [apply Permutation_sym; apply Hp|]. auto.
+  eapply Permutation_in; [apply Permutation_sym; apply Hp|].
+  eapply base_processing_roots_incl; eauto.
 Qed.
 
 Lemma run_submits_valid : forall g hist st st' os,
@@ -594,8 +677,8 @@ Proof.
   destruct roots as [|r0 rtl].
   - inv H. simpl. rewrite app_nil_r. repeat split; auto; try constructor.
     intros r Hr. simpl. pose proof (Hdone r Hr). pose proof (M1 r). lia.
-  - destruct (submit_loop (quorum g) bn c1 (r0 :: rtl) (r0 :: rtl)) as [[c2 subs] e] eqn:El.
-    destruct (submit_loop_props _ _ _ _ _ _ _ _ El W1) as (W2 & G2 & S2 & D2 & _ & _).
+  - destruct (run_loop g bn c1 (r0 :: rtl)) as [[c2 subs] e] eqn:El.
+    destruct (run_loop_props _ _ _ _ _ _ _ El W1) as (W2 & G2 & S2 & D2 & _).
     assert (Hres : cont st' = c2 /\ o_subs o = subs) by (destruct e; inv H; auto).
     destruct Hres as [Hc Ho]. rewrite Ho. unfold inv2. rewrite Hc.
     repeat split; auto.
@@ -717,6 +800,23 @@ Proof.
   intros. unfold submitted, submits. rewrite flat_map_app, existsb_app. reflexivity.
 Qed.
 
+Lemma run_loop_single : forall g c r0,
+  run_loop g true c [r0] =
+  if verify_reconstructed (reconstruct (quorum g) (get_sigs c r0))
+  then (c, [{| sub_root := r0; sub_sig := reconstruct (quorum g) (get_sigs c r0) |}], LDone)
+  else (fallback c r0, [], LBadQuorum).
+Proof.
+  intros. unfold run_loop. destruct (fix_multi g); simpl;
+    destruct (verify_reconstructed (reconstruct (quorum g) (get_sigs c r0))); reflexivity.
+Qed.
+
+Lemma finished_after_single : forall g c r0,
+  expected g = [r0] -> quorum g <= count c r0 -> finished_after g c = true.
+Proof.
+  intros g c r0 He Hq. unfold finished_after. destruct (fix_multi g); auto.
+  rewrite He. simpl. rewrite has_quorum_count. apply Nat.leb_le in Hq. rewrite Hq. reflexivity.
+Qed.
+
 Lemma step_inv3 : forall g r0 st m st' o seen os,
   expected g = [r0] ->
   step g st (m, true) = (st', o) ->
@@ -752,8 +852,10 @@ Proof.
   - assert (Hprev : Nat.leb (quorum g) (count (cont st) (p_root p)) = false) by (apply Nat.leb_gt; lia).
     rewrite Hprev in H. simpl in H.
     apply Nat.leb_le in Enow.
+    rewrite run_loop_single in H.
     destruct (verify_reconstructed (reconstruct (quorum g) (get_sigs c1 (p_root p)))) eqn:Er.
-    + inv H. simpl. rewrite submitted_app. apply orb_true_iff. right.
+    + inv H. simpl. rewrite (finished_after_single g c1 (p_root p) Hexp Enow).
+      rewrite submitted_app. apply orb_true_iff. right.
       unfold submitted, submits. simpl. rewrite N.eqb_refl. reflexivity.
     + inv H. simpl. split.
       * unfold count. rewrite fallback_same.
@@ -910,13 +1012,17 @@ Qed.
 
 (* ---- multi-root duties: the liveness clause fails (DESIGN 5.2, P3) --------------------------- *)
 
-Definition liveness_statement : Prop :=
+Definition liveness_statement (repaired : bool) : Prop :=
   forall g hist k,
+    fix_multi g = repaired ->
     NoDup (expected g) -> 1 <= quorum g -> bn_always_ok hist = true ->
     live_at g hist k = true.
 
 Definition cfg4_2roots : cfg :=
-  {| committee := [1; 2; 3; 4]%N; quorum := 3; duty_slot := 12%N; expected := [0; 1]%N |}.
+  {| committee := [1; 2; 3; 4]%N; quorum := 3; duty_slot := 12%N; expected := [0; 1]%N; fix_multi := false |}.
+
+Definition cfg4_2roots_repaired : cfg :=
+  {| committee := [1; 2; 3; 4]%N; quorum := 3; duty_slot := 12%N; expected := [0; 1]%N; fix_multi := true |}.
 
 Definition full_msg (s : N) (shares : list share) : input :=
   ({| s_signer := s; s_slot := 12%N;
@@ -934,11 +1040,326 @@ Definition early_finish_witness : list input :=
   [ full_msg 1 [Good; Bad 1]; full_msg 1 [Good; Bad 3];
     full_msg 2 [Good; Good]; full_msg 3 [Good; Good]; full_msg 4 [Good; Good] ].
 
-Lemma multi_root_liveness_refuted : ~ liveness_statement.
+Lemma multi_root_liveness_refuted : ~ liveness_statement false.
 Proof.
-  intros H. specialize (H cfg4_2roots p3_witness 4).
+  intros H. specialize (H cfg4_2roots p3_witness 4 eq_refl).
   assert (Hnd : NoDup (expected cfg4_2roots)).
   { simpl. constructor; [intros [E|[]]; discriminate|]. constructor; [intros []|constructor]. }
   specialize (H Hnd). simpl in H. specialize (H (le_S _ _ (le_S _ _ (le_n 1))) eq_refl).
   vm_compute in H. discriminate.
+Qed.
+
+(* ---- the repaired multi-root loop: liveness for every decided object -------------------------- *)
+
+(* what one inner message does to the signer map of its root *)
+Definition sm_step (m : sigmap) (p : pmsg) : sigmap :=
+  match sm_get m (p_signer p) with
+  | Some prev =>
+      if is_good prev then m
+      else if is_good (p_share p) then sm_remove m (p_signer p) ++ [(p_signer p, p_share p)]
+           else sm_remove m (p_signer p)
+  | None => m ++ [(p_signer p, p_share p)]
+  end.
+
+Lemma inner_step_root : forall c p,
+  get_sigs (inner_step c p) (p_root p) = sm_step (get_sigs c (p_root p)) p.
+Proof.
+  intros c p. unfold inner_step, has_signer, sm_step.
+  destruct (sm_get (get_sigs c (p_root p)) (p_signer p)) as [prev|] eqn:Eg.
+  - unfold resolve_duplicate. rewrite Eg. unfold verify_share.
+    destruct (is_good prev); auto.
+    destruct (is_good (p_share p)).
+    + rewrite add_same_root, remove_same_root, sm_get_remove_same. reflexivity.
+    + apply remove_same_root.
+  - rewrite add_same_root, Eg. reflexivity.
+Qed.
+
+Lemma base_processing_root : forall q ps c c' roots,
+  base_processing q c ps = (c', roots) -> NoDup (map p_root ps) ->
+  forall r,
+    (~ In r (map p_root ps) -> get_sigs c' r = get_sigs c r /\ ~ In r roots) /\
+    (forall p, In p ps -> p_root p = r ->
+        get_sigs c' r = sm_step (get_sigs c r) p /\
+        (In r roots <->
+         Nat.leb q (length (sm_step (get_sigs c r) p)) && negb (Nat.leb q (length (get_sigs c r))) = true)).
+Proof.
+  induction ps as [|p0 tl IH]; intros c c' roots H Hnd r.
+  - simpl in H. inv H. split; [auto|]. intros p [].
+  - rewrite base_processing_unfold in H. cbv zeta in H.
+    destruct (base_processing q (inner_step c p0) tl) as [c2 roots2] eqn:E.
+    simpl in Hnd. inv Hnd.
+    specialize (IH _ _ _ E H3).
+    assert (Hroots : forall x, In x roots <->
+              (x = p_root p0 /\ has_quorum q (inner_step c p0) (p_root p0) && negb (has_quorum q c (p_root p0)) = true)
+              \/ In x roots2).
+    { intros x. destruct (has_quorum q (inner_step c p0) (p_root p0) && negb (has_quorum q c (p_root p0))) eqn:Ee;
+        inv H; simpl; split.
+      - intros [<-|Hx]; auto.
+      - intros [[-> _]|Hx]; auto.
+      - auto.
+      - intros [[_ Hf]|Hx]; auto. discriminate. }
+    assert (Hc' : c' = c2).
+    { destruct (has_quorum q (inner_step c p0) (p_root p0) && negb (has_quorum q c (p_root p0))); inv H; auto. }
+    subst c'. split.
+    + intros Hni. simpl in Hni.
+      assert (Hne : p_root p0 <> r) by (intros Heq; apply Hni; auto).
+      assert (Hni2 : ~ In r (map p_root tl)) by (intros Hin; apply Hni; auto).
+      destruct (IH r) as [IH1 _]. destruct (IH1 Hni2) as [Hg Hr]. split.
+      * rewrite Hg. apply inner_step_other. auto.
+      * intros Hin. apply Hroots in Hin. destruct Hin as [[Heq _]|Hin]; auto.
+    + intros p [<-|Hin] Hr.
+      * (* the head message is the one for r *)
+        subst r. destruct (IH (p_root p0)) as [IH1 _]. destruct (IH1 H2) as [Hg Hnr].
+        split; [rewrite Hg; apply inner_step_root|].
+        rewrite Hroots. unfold has_quorum. rewrite inner_step_root. split.
+        -- intros [[_ He]|Hx]; [auto|contradiction].
+        -- intros He. left. auto.
+      * assert (Hne : p_root p0 <> r).
+        { intros Heq. apply H2. rewrite Heq, <- Hr. apply in_map. auto. }
+        destruct (IH r) as [_ IH2]. destruct (IH2 p Hin Hr) as [Hg Hiff].
+        rewrite inner_step_other in Hg, Hiff by auto.
+        split; auto. rewrite Hroots. rewrite <- Hiff. split.
+        -- intros [[Heq _]|Hx]; auto. congruence.
+        -- auto.
+Qed.
+
+Lemma sm_step_via_container : forall m p,
+  sm_step m p = get_sigs (inner_step [(p_root p, m)] p) (p_root p).
+Proof. intros. rewrite inner_step_root. simpl. rewrite N.eqb_refl. reflexivity. Qed.
+
+Lemma sm_step_length : forall m p, length (sm_step m p) <= S (length m).
+Proof.
+  intros. rewrite sm_step_via_container.
+  pose proof (inner_step_count [(p_root p, m)] p (p_root p)) as H.
+  unfold count in H. simpl in H. rewrite N.eqb_refl in H. auto.
+Qed.
+
+Lemma sm_step_keeps_good : forall m p s, sm_get m s = Some Good -> sm_get (sm_step m p) s = Some Good.
+Proof.
+  intros m p s H. rewrite sm_step_via_container. apply inner_step_keeps_good.
+  simpl. rewrite N.eqb_refl. auto.
+Qed.
+
+Lemma sm_step_adds_good : forall m p, is_good (p_share p) = true -> sm_get (sm_step m p) (p_signer p) = Some Good.
+Proof. intros m p H. rewrite sm_step_via_container. apply inner_step_adds_good. auto. Qed.
+
+(* the repaired loop, root by root (beacon node available) *)
+Lemma submit_loop_fixed_root : forall q roots c bad c' subs e,
+  submit_loop_fixed q true c roots bad = (c', subs, e) -> NoDup roots ->
+  forall r,
+    (~ In r roots -> get_sigs c' r = get_sigs c r) /\
+    (In r roots ->
+       if verify_reconstructed (reconstruct q (get_sigs c r))
+       then get_sigs c' r = get_sigs c r /\ In r (map sub_root subs)
+       else get_sigs c' r = goods (get_sigs c r)).
+Proof.
+  induction roots as [|r0 tl IH]; intros c bad c' subs e H Hnd r; simpl in H.
+  - inv H. split; auto. intros [].
+  - inv Hnd. destruct (verify_reconstructed (reconstruct q (get_sigs c r0))) eqn:Ev.
+    + destruct (submit_loop_fixed q true c tl bad) as [[c1 subs1] e1] eqn:E. inv H.
+      destruct (IH _ _ _ _ _ E H3 r) as [I1 I2]. split.
+      * intros Hni. apply I1. intros Hin. apply Hni. simpl. auto.
+      * intros [<-|Hin].
+        -- rewrite Ev. split; [apply I1; auto|simpl; auto].
+        -- specialize (I2 Hin). destruct (verify_reconstructed (reconstruct q (get_sigs c r))).
+           ++ destruct I2. split; auto. simpl. auto.
+           ++ auto.
+    + destruct (IH _ _ _ _ _ H H3 r) as [I1 I2]. split.
+      * intros Hni. rewrite I1 by (intros Hin; apply Hni; simpl; auto).
+        apply fallback_other. intros ->. apply Hni. simpl. auto.
+      * intros [<-|Hin].
+        -- rewrite Ev. rewrite I1 by auto. apply fallback_same.
+        -- assert (Hne : r0 <> r) by (intros ->; contradiction).
+           specialize (I2 Hin). rewrite (fallback_other c r0 r Hne) in I2. auto.
+Qed.
+
+(* invariant of the repaired runner *)
+Definition inv4 (g : cfg) (st : pstate) (seen : list N) (os : list out) : Prop :=
+  wf (cont st) /\
+  (forall r, In r (expected g) -> count (cont st) r < quorum g \/ submitted r os = true) /\
+  (finished st = false ->
+     forall s r, In s seen -> In r (expected g) -> sm_get (get_sigs (cont st) r) s = Some Good) /\
+  (finished st = true -> forall r, In r (expected g) -> submitted r os = true).
+
+Lemma submitted_mono : forall r a b, submitted r a = true -> submitted r (a ++ b) = true.
+Proof. intros. rewrite submitted_app, H. reflexivity. Qed.
+
+Lemma submitted_last : forall r os o,
+  In r (map sub_root (o_subs o)) -> submitted r (os ++ [o]) = true.
+Proof.
+  intros r os o Hin. rewrite submitted_app. apply orb_true_iff. right.
+  unfold submitted, submits. simpl. rewrite app_nil_r.
+  apply existsb_exists. apply in_map_iff in Hin. destruct Hin as (s & Hs & Hin).
+  exists s. split; auto. subst. apply N.eqb_refl.
+Qed.
+
+Lemma forallb_good_in : forall ps p, forallb (fun p => is_good (p_share p)) ps = true -> In p ps -> is_good (p_share p) = true.
+Proof. intros ps p H Hin. rewrite forallb_forall in H. auto. Qed.
+
+Lemma step_inv4 : forall g st m st' o seen os,
+  fix_multi g = true -> NoDup (expected g) ->
+  step g st (m, true) = (st', o) ->
+  inv4 g st seen os ->
+  inv4 g st' (if correct_msg g m then s_signer m :: seen else seen) (os ++ [o]).
+Proof.
+  intros g st m st' o seen os Hfx Hnd H (Hwf & Ha & Hb & Hd). unfold step in H.
+  destruct (finished st) eqn:Ef.
+  { inv H. unfold inv4. rewrite Ef. split; [auto|]. split; [|split].
+    - intros r Hr. destruct (Ha r Hr); auto using submitted_mono.
+    - discriminate.
+    - intros _ r Hr. apply submitted_mono. auto. }
+  specialize (Hb eq_refl). clear Hd.
+  assert (Hstay : forall e, (st', o) = (st, {| o_err := e; o_subs := [] |}) ->
+     validate g m <> EOk ->
+     inv4 g st' (if correct_msg g m then s_signer m :: seen else seen) (os ++ [o])).
+  { intros e He Hv. inv He. unfold correct_msg. destruct (validate g m); try congruence;
+    (split; [auto|]; split; [|split]; [intros r Hr; destruct (Ha r Hr); auto using submitted_mono
+                      | intros _; auto | rewrite Ef; discriminate]). }
+  destruct (validate g m) eqn:Ev; try (symmetry in H; eapply Hstay; eauto; congruence).
+  clear Hstay.
+  apply validate_ok in Ev as Hv. destruct Hv as (Hwfm & _ & _ & Hp).
+  assert (Hndm : NoDup (map p_root (s_msgs m))) by (eapply Permutation_NoDup; eauto).
+  destruct (base_processing (quorum g) (cont st) (s_msgs m)) as [c1 roots] eqn:Eb.
+  pose proof (base_processing_root _ _ _ _ _ Eb Hndm) as BP.
+  destruct (base_processing_props _ _ _ _ _ Eb Hwf) as (Hwf1 & _ & _ & _ & Hndroots).
+  specialize (Hndroots Hndm).
+  (* every expected root has exactly one inner message *)
+  assert (Hmsg : forall r, In r (expected g) -> exists p, In p (s_msgs m) /\ p_root p = r).
+  { intros r Hr. eapply Permutation_in in Hr; [|apply Hp]. apply in_map_iff in Hr.
+    destruct Hr as (p & Hpr & Hin). eauto. }
+  (* facts about c1, root by root *)
+  assert (Hc1 : forall r, In r (expected g) ->
+     exists p, In p (s_msgs m) /\ p_root p = r /\ p_signer p = s_signer m /\
+       get_sigs c1 r = sm_step (get_sigs (cont st) r) p /\
+       (In r roots <-> quorum g <= count c1 r /\ count (cont st) r < quorum g)).
+  { intros r Hr. destruct (Hmsg r Hr) as (p & Hin & Hpr). exists p.
+    destruct (BP r) as [_ B2]. destruct (B2 p Hin Hpr) as [Hg Hiff].
+    split; [exact Hin|]. split; [exact Hpr|]. split; [apply wellformed_signers; auto|]. split; [exact Hg|].
+    split.
+    - intros Hroots. apply Hiff in Hroots. apply andb_true_iff in Hroots. destruct Hroots as [H1 H2].
+      apply Nat.leb_le in H1. apply negb_true_iff in H2. apply Nat.leb_gt in H2.
+      unfold count. rewrite Hg. auto.
+    - intros [H1 H2]. apply Hiff. apply andb_true_iff. split.
+      + apply Nat.leb_le. unfold count in H1. rewrite Hg in H1. auto.
+      + apply negb_true_iff. apply Nat.leb_gt. auto. }
+  (* the correct shares seen so far (and this message's, if it is correct) are in c1 *)
+  assert (Hgood1 : forall s r, In s (if correct_msg g m then s_signer m :: seen else seen) ->
+                   In r (expected g) -> sm_get (get_sigs c1 r) s = Some Good).
+  { intros s r Hs Hr. destruct (Hc1 r Hr) as (p & Hin & Hpr & Hsig & Hg & _). rewrite Hg.
+    unfold correct_msg in Hs. rewrite Ev in Hs.
+    destruct (forallb (fun p0 => is_good (p_share p0)) (s_msgs m)) eqn:Eg.
+    - destruct Hs as [<-|Hs].
+      + rewrite <- Hsig. apply sm_step_adds_good. eapply forallb_good_in; eauto.
+      + apply sm_step_keeps_good. auto.
+    - apply sm_step_keeps_good. auto. }
+  assert (Hcount1 : forall r, In r (expected g) -> count c1 r <= S (count (cont st) r)).
+  { intros r Hr. destruct (Hc1 r Hr) as (p & _ & _ & _ & Hg & _). unfold count. rewrite Hg. apply sm_step_length. }
+  destruct roots as [|r0 rtl].
+  - (* no quorum edge *)
+    inv H. unfold inv4. simpl. split; [auto|]. split; [|split].
+    + intros r Hr. destruct (Ha r Hr) as [Hlt|Hs]; [|right; apply submitted_mono; auto].
+      left. destruct (Hc1 r Hr) as (_ & _ & _ & _ & _ & Hiff).
+      destruct (Nat.lt_ge_cases (count c1 r) (quorum g)); auto.
+      exfalso. assert (In r []) by (apply Hiff; auto). contradiction.
+    + intros _ s r Hs Hr. auto.
+    + discriminate.
+  - (* quorum edge: the repaired loop *)
+    destruct (run_loop g true c1 (r0 :: rtl)) as [[c2 subs] e] eqn:El.
+    unfold run_loop in El. rewrite Hfx in El.
+    pose proof (submit_loop_fixed_root _ _ _ _ _ _ _ El Hndroots) as LR.
+    destruct (submit_loop_fixed_props _ _ _ _ _ _ _ _ El Hwf1) as (Hwf2 & _ & _ & _ & Hnbn).
+    assert (Hsubs : o_subs o = subs /\ cont st' = c2 /\
+                    (finished st' = true -> e = LDone /\ finished_after g c2 = true)).
+    { destruct e; inv H; simpl; repeat split; auto; try discriminate; exfalso; apply Hnbn; auto. }
+    destruct Hsubs as (Hso & Hco & Hfin).
+    (* every expected root: below quorum or submitted *)
+    assert (Ha' : forall r, In r (expected g) -> count c2 r < quorum g \/ submitted r (os ++ [o]) = true).
+    { intros r Hr. destruct (LR r) as [L1 L2].
+      destruct (Hc1 r Hr) as (_ & _ & _ & _ & _ & Hiff).
+      destruct (in_dec N.eq_dec r (r0 :: rtl)) as [Hin|Hni].
+      - specialize (L2 Hin). apply Hiff in Hin as Hedge. destruct Hedge as [Hq Hlt].
+        destruct (verify_reconstructed (reconstruct (quorum g) (get_sigs c1 r))) eqn:Evr.
+        + right. apply submitted_last. rewrite Hso. tauto.
+        + left. unfold count. rewrite L2.
+          unfold reconstruct in Evr.
+          assert (Eleb : Nat.leb (quorum g) (length (get_sigs c1 r)) = true) by (apply Nat.leb_le; auto).
+          rewrite Eleb in Evr. simpl in Evr.
+          destruct (forallb (fun e0 => is_good (snd e0)) (get_sigs c1 r)) eqn:Eall; [discriminate|].
+          apply filter_lt_length in Eall. pose proof (Hcount1 r Hr). unfold goods, count in *. lia.
+      - unfold count. rewrite (L1 Hni). fold (count c1 r).
+        destruct (Ha r Hr) as [Hlt|Hs]; [|right; apply submitted_mono; auto].
+        left. destruct (Nat.lt_ge_cases (count c1 r) (quorum g)); auto.
+        exfalso. apply Hni. apply Hiff. auto. }
+    unfold inv4. rewrite Hco. split; [exact Hwf2|]. split; [exact Ha'|]. split.
+    + intros _ s r Hs Hr. destruct (LR r) as [L1 L2].
+      destruct (in_dec N.eq_dec r (r0 :: rtl)) as [Hin|Hni].
+      * specialize (L2 Hin).
+        destruct (verify_reconstructed (reconstruct (quorum g) (get_sigs c1 r))).
+        -- destruct L2 as [L2 _]. rewrite L2. auto.
+        -- rewrite L2. apply sm_get_filter_good. auto.
+      * rewrite (L1 Hni). auto.
+    + intros Hf r Hr. destruct (Hfin Hf) as [_ Hfa]. unfold finished_after in Hfa. rewrite Hfx in Hfa.
+      rewrite forallb_forall in Hfa. specialize (Hfa r Hr). rewrite has_quorum_count in Hfa.
+      apply Nat.leb_le in Hfa. destruct (Ha' r Hr) as [Hlt|Hs]; auto. lia.
+Qed.
+
+Lemma run_inv4 : forall g hist st st' os0 os seen,
+  fix_multi g = true -> NoDup (expected g) ->
+  bn_always_ok hist = true ->
+  run g st hist = (st', os) ->
+  inv4 g st seen os0 ->
+  inv4 g st'
+    (rev (map (fun i => s_signer (fst i)) (filter (fun i => correct_msg g (fst i)) hist)) ++ seen)
+    (os0 ++ os).
+Proof.
+  induction hist as [|i tl IH]; intros st st' os0 os seen Hfx Hnd Hbn H Hinv; simpl in H.
+  - inv H. simpl. rewrite app_nil_r. auto.
+  - destruct (step g st i) as [s1 o] eqn:Es.
+    destruct (run g s1 tl) as [s2 os2] eqn:Er. inv H.
+    destruct i as [m bn].
+    simpl in Hbn. apply andb_true_iff in Hbn. destruct Hbn as [Hb Hbn]. subst bn.
+    pose proof (step_inv4 _ _ _ _ _ _ _ Hfx Hnd Es Hinv) as Hinv1.
+    specialize (IH _ _ _ _ _ Hfx Hnd Hbn Er Hinv1).
+    replace (os0 ++ o :: os2) with ((os0 ++ [o]) ++ os2) by (rewrite <- app_assoc; reflexivity).
+    simpl. destruct (correct_msg g m); simpl.
+    + rewrite <- app_assoc. simpl. auto.
+    + auto.
+Qed.
+
+Lemma multi_root_liveness_run : forall g hist st' os,
+  fix_multi g = true -> NoDup (expected g) -> 1 <= quorum g ->
+  bn_always_ok hist = true ->
+  run g init_state hist = (st', os) ->
+  quorum g <= length (correct_senders g hist) ->
+  forall r, In r (expected g) -> submitted r os = true.
+Proof.
+  intros g hist st' os Hfx Hnd Hq Hbn Hrun Hcs r Hr.
+  assert (Hinit : inv4 g init_state [] []).
+  { unfold inv4. simpl. split; [apply wf_nil|]. split; [|split].
+    - intros r0 _. left. unfold count. simpl. lia.
+    - intros _ s r0 [].
+    - discriminate. }
+  pose proof (run_inv4 _ _ _ _ _ _ _ Hfx Hnd Hbn Hrun Hinit) as Hinv.
+  simpl in Hinv. rewrite app_nil_r in Hinv. destruct Hinv as (_ & Ha & Hb & Hd).
+  destruct (finished st') eqn:Ef; [apply Hd; auto|].
+  specialize (Hb eq_refl).
+  destruct (Ha r Hr) as [Hlt|Hs]; auto. exfalso.
+  unfold correct_senders in Hcs.
+  set (l := map (fun i : input => s_signer (fst i)) (filter (fun i : input => correct_msg g (fst i)) hist)) in *.
+  assert (Hincl : incl (dedup l) (map fst (get_sigs (cont st') r))).
+  { intros s Hin. apply dedup_incl in Hin. eapply sm_get_some_in. apply Hb; auto.
+    apply in_rev. rewrite rev_involutive. auto. }
+  pose proof (NoDup_incl_length (dedup_nodup l) Hincl) as Hlen.
+  change (quorum g <= length (dedup l)) in Hcs.
+  rewrite map_length in Hlen. unfold count in Hlt. lia.
+Qed.
+
+Lemma multi_root_liveness_repaired : liveness_statement true.
+Proof.
+  intros g hist k Hfx Hnd Hq Hbn. unfold live_at.
+  destruct (Nat.leb (quorum g) (length (correct_senders g (firstn k hist)))) eqn:E; auto.
+  apply Nat.leb_le in E.
+  destruct (run g init_state (firstn k hist)) as [st' os] eqn:Er. simpl.
+  apply forallb_forall. intros r Hr.
+  eapply (multi_root_liveness_run g (firstn k hist)); eauto using bn_always_ok_firstn.
 Qed.
